@@ -25,6 +25,13 @@ class LazyNetlist(Netlist):
         ev.commit()
 
 
+def _error_sig(module, t):
+    """`interconnect.timeout.error` — what SoC.finalize wires to the bus error counter.  An interconnect that has
+    no `timeout` although one is configured reads as error = 0 (and then disagrees with the model)."""
+    tm = getattr(module, "timeout", None)
+    return tm.error if (t is not None and tm is not None) else None
+
+
 class Base:
     """Instance protocol of explore.py with flat signal lists."""
     monitor_cls = None
@@ -241,7 +248,7 @@ class WbSharedInst(Base):
         for i in range(n):
             q += [None, None, 3 * k + 3 * i]
         if kind == "shared":
-            outs += [m.timeout.error if t is not None else None, m.arbiter.rr.grant]
+            outs += [_error_sig(m, t), m.arbiter.rr.grant]
             q += [None, None]
         self.qual = q
         self.alphabet = alphabet or []
@@ -367,6 +374,8 @@ class WbMonitor:
     def __init__(self, n, k, t, dw, sh, reg):
         self.n, self.k, self.t, self.dw, self.sh, self.reg = n, k, t, dw, sh, reg
         self.waited = 0
+        self.stats = {"timeouts": 0, "answered_in_time": 0, "slave_ack_in_expiry_cycle": 0,
+                      "answered_in_last_cycle_before_expiry": 0, "withdrawn_in_expiry_cycle": 0}
 
     def observe(self, letter, outs):
         n, k, t = self.n, self.k, self.t
@@ -383,6 +392,14 @@ class WbMonitor:
             if i != g and to_m[i][0]:
                 msg = "master %d sees ack while master %d owns the bus" % (i, g)
         any_ack = any(s[0] for s in ss)
+        st = self.stats
+        if self.waited >= t:
+            st["timeouts"] += 1
+            st["slave_ack_in_expiry_cycle"] += 1 if any_ack else 0
+            st["withdrawn_in_expiry_cycle"] += 0 if req else 1
+        elif req and any_ack:
+            st["answered_in_time"] += 1
+            st["answered_in_last_cycle_before_expiry"] += 1 if self.waited == t - 1 else 0
         if msg:
             pass
         elif self.waited >= t:
@@ -508,7 +525,7 @@ class AxSharedInst(Base):
                [s for p in ms for s in (p.aw.ready, p.w.ready, p.b.valid, p.b.resp)] + \
                [s for p in ss for s in (p.ar.valid, p.ar.addr, p.r.ready)] + \
                [s for p in ms for s in (p.ar.ready, p.r.valid, p.r.resp, p.r.data, p.r.last)] + \
-               [m.timeout.error if t is not None else None, m.arbiter.rr_write.grant, m.arbiter.rr_read.grant]
+               [_error_sig(m, t), m.arbiter.rr_write.grant, m.arbiter.rr_read.grant]
         q = []
         for j in range(k):
             q += [None, 4 * j, None, None]
@@ -727,11 +744,15 @@ class _AxDirMon:
         self.t, self.dw, self.full, self.write = t, dw, full, write
         self.waited = 0
         self.forced = False
+        self.stats = {"timeouts": 0, "forced_responses": 0, "accepted_in_expiry_cycle": 0, "slave_responses": 0,
+                      "slave_accepts_during_forced_phase": 0}
 
-    def step(self, req, view, slaves_drive):
+    def step(self, req, view, slaves_drive, slaves_see=None):
         """req: owner's (awv, wv, br) or (arv, rr); view: owner's view (awr, wr, bv, bresp) or
-        (arr, rv, rresp, rdata, rlast); slaves_drive: the same tuples as driven by each slave.
+        (arr, rv, rresp, rdata, rlast); slaves_drive: the same tuples as driven by each slave; slaves_see: what
+        each slave sees of the request side ((awv, wv, br) or (arv, rr)).
         Returns (msg, expected_error)."""
+        slaves_see = slaves_see or [None] * len(slaves_drive)
         t = self.t
         msg, exp_err = None, 0
         if self.write:
@@ -745,6 +766,9 @@ class _AxDirMon:
                     msg = "forced B response is not SLVERR (resp=%d)" % bresp
                 if bv and brdy:
                     self.forced = False
+                    self.stats["forced_responses"] += 1
+                if any(sv is not None and ((sv[0] and sd[0]) or (sv[1] and sd[1])) for sd, sv in zip(slaves_drive, slaves_see)):
+                    self.stats["slave_accepts_during_forced_phase"] += 1
                 self.waited = 0
                 return msg, 0
             pending = bool((awv and not awr) or (wv and not wr))
@@ -754,6 +778,16 @@ class _AxDirMon:
                 msg = "w.ready seen by the owner although no slave is ready and no timeout is in progress"
             elif bv and not any(s[2] for s in slaves_drive):
                 msg = "b.valid seen by the owner although no slave responds and no timeout is in progress"
+            # answered in time => undisturbed: a handshake the slave believes in is the owner's handshake
+            for j, (sd, sv) in enumerate(zip(slaves_drive, slaves_see)):
+                if msg or sv is None:
+                    break
+                if sv[0] and sd[0] and not awr:
+                    msg = "slave %d accepted AW in time but the owner does not see aw.ready" % j
+                elif sv[1] and sd[1] and not wr:
+                    msg = "slave %d accepted W in time but the owner does not see w.ready" % j
+                elif sd[2] and sv[2] and not (bv and brdy and bresp == sd[3]):
+                    msg = "slave %d's B (resp %d) was taken but the owner sees b.valid=%d resp=%d" % (j, sd[3], bv, bresp)
         else:
             arv, rrdy = req
             arr, rv, rresp, rdata, rlast = view
@@ -765,6 +799,9 @@ class _AxDirMon:
                         "/last" if self.full else "", rresp, rdata, rlast)
                 if rv and rrdy:
                     self.forced = False
+                    self.stats["forced_responses"] += 1
+                if any(sv is not None and sv[0] and sd[0] for sd, sv in zip(slaves_drive, slaves_see)):
+                    self.stats["slave_accepts_during_forced_phase"] += 1
                 self.waited = 0
                 return msg, 0
             pending = bool(arv and not arr)
@@ -772,12 +809,25 @@ class _AxDirMon:
                 msg = "ar.ready seen by the owner although no slave is ready and no timeout is in progress"
             elif rv and not any(s[1] for s in slaves_drive):
                 msg = "r.valid seen by the owner although no slave responds and no timeout is in progress"
+            for j, (sd, sv) in enumerate(zip(slaves_drive, slaves_see)):
+                if msg or sv is None:
+                    break
+                if sv[0] and sd[0] and not arr:
+                    msg = "slave %d accepted AR in time but the owner does not see ar.ready" % j
+                elif sd[1] and sv[1] and not (rv and rrdy and (rresp, rdata) == (sd[2], sd[3])):
+                    msg = "slave %d's R (resp %d data %#x) was taken but the owner sees r.valid=%d resp=%d data=%#x" % (
+                        j, sd[2], sd[3], rv, rresp, rdata)
         if self.waited > t:
             msg = msg or "request pending for %d cycles, timeout is %d" % (self.waited, t)
+        if (bv and brdy) if self.write else (rv and rrdy):
+            self.stats["slave_responses"] += 1
+        if self.waited >= t and not pending:
+            self.stats["accepted_in_expiry_cycle"] += 1
         if self.waited >= t and pending:
             exp_err = 1
             self.forced = True
             self.waited = 0
+            self.stats["timeouts"] += 1
         else:
             self.waited = self.waited + 1 if pending else 0
         return msg, exp_err
@@ -806,9 +856,12 @@ class AxMonitor:
             if i != gr and (vr[i][0] or vr[i][1]):
                 return "master %d sees a read handshake signal while master %d owns the read channels" % (i, gr)
         awv, _, wv, brdy = mw[gw]
-        m1, e1 = self.w.step((awv, wv, brdy), tuple(vw[gw]), [(s[0], s[1], s[2]) for s in sw])
+        tsw = [outs[4 * j:4 * j + 4] for j in range(k)]
+        tsr = [outs[4 * k + 4 * n + 3 * j:4 * k + 4 * n + 3 * j + 3] for j in range(k)]
+        m1, e1 = self.w.step((awv, wv, brdy), tuple(vw[gw]), [tuple(s) for s in sw],
+                             [(v[0], v[2], v[3]) for v in tsw])
         arv, _, rrdy = mr[gr]
-        m2, e2 = self.r.step((arv, rrdy), tuple(vr[gr]), [(s[0], s[1]) for s in sr])
+        m2, e2 = self.r.step((arv, rrdy), tuple(vr[gr]), [tuple(s[:4]) for s in sr], [(v[0], v[2]) for v in tsr])
         if m1 or m2:
             return m1 or m2
         if error != (e1 | e2):
@@ -890,6 +943,13 @@ def probe_crossbar(t=4, cycles=40):
             hung.append("%s: no %s in %d cycles" % ("AXICrossbar" if full else "AXILiteCrossbar",
                                                    "/".join(x for x, v in (("B", b), ("R", r)) if v is None), cycles))
     ref = wb_silent_slave_latency("shared", t, cycles)
+    import random
+    for std in ("wishbone", "axi-lite", "axi"):
+        tb = SocTb(std, "crossbar", 16)
+        lat, _, _ = tb.access(UNMAPPED[0])
+        if lat is None:
+            hung.append("SoCMini(%s, crossbar, bus_timeout=16): unmapped read not terminated in 56 cycles, "
+                        "interconnect has no .timeout so ctrl.bus_error is never driven" % std)
     return bool(hung), "timeout_cycles=%d, 1x1, silent slave: %s (InterconnectShared: ack in cycle %s)" % (
         t, "; ".join(hung) if hung else "all three crossbars terminate", ref)
 
@@ -916,8 +976,8 @@ def probe_response_phase(t=3, cycles=200):
             for key, sig in (("aw", p.aw.ready), ("w", p.w.ready), ("ar", p.ar.ready)):
                 if st[key] and n.getu(sig):
                     st[key] = 0
-            for key, sig in (("b", p.b.valid), ("r", p.r.valid), ("err", m.timeout.error), ("other", q.r.valid)):
-                if seen[key] is None and n.getu(sig):
+            for key, sig in (("b", p.b.valid), ("r", p.r.valid), ("err", _error_sig(m, t)), ("other", q.r.valid)):
+                if seen[key] is None and sig is not None and n.getu(sig):
                     seen[key] = c
             n.tick()
         if seen["b"] is None or seen["r"] is None:
@@ -977,3 +1037,210 @@ def probe_stale_response(t=3):
                              "AXIInterconnectShared" if full else "AXILiteInterconnectShared", log[0][0], log[1][0]))
     return bool(stale), "timeout_cycles=%d, slave ready from cycle %d, answers 6 cycles after AW: %s" % (
         t, t + 1, "; ".join(stale) if stale else "no stale response delivered")
+
+
+# ---------------------------------------------------------------------------------------------------------
+# End to end: a real SoCMini (no CPU) with a test-bench master, small `bus_timeout`, accesses to unmapped
+# addresses interleaved with accesses to a RAM; `SoC.finalize` wiring of timeout.error -> ctrl.bus_errors.
+
+_SOC_IO = None
+
+
+def build_soc(std, ic, t, dw=32):
+    global _SOC_IO
+    import envshim
+    from litex.build.sim import SimPlatform
+    from litex.build.generic_platform import Pins
+    from litex.soc.integration.soc_core import SoCMini
+    if _SOC_IO is None:
+        _SOC_IO = [("sys_clk", 0, Pins(1)), ("sys_rst", 0, Pins(1))]
+    plat = SimPlatform("SIM", _SOC_IO)
+    envshim.quiet_stderr()
+    soc = SoCMini(plat, clk_freq=int(1e6), bus_standard=std, bus_data_width=dw, bus_interconnect=ic, bus_timeout=t)
+    soc.add_ram("ram", origin=0x10000000, size=0x100, contents=[0x11223344, 0x55667788, 0x99aabbcc])
+    if std == "wishbone":
+        m = wishbone.Interface(data_width=dw, address_width=32, addressing="word")
+    elif std == "axi-lite":
+        m = axi_lite.AXILiteInterface(data_width=dw, address_width=32)
+    else:
+        m = axi_full.AXIInterface(data_width=dw, address_width=32, id_width=1)
+    soc.bus.add_master(name="tb", master=m)
+    soc.finalize()
+    return soc, m
+
+
+class SocTb:
+    """Drives one bus transaction at a time on the test-bench master of a finalized SoC."""
+    def __init__(self, std, ic, t, dw=32):
+        self.std, self.ic, self.t, self.dw = std, ic, t, dw
+        self.soc, self.m = build_soc(std, ic, t, dw)
+        self.n = LazyNetlist(self.soc)
+        self.cycle = 0
+
+    def bus_errors(self):
+        self.n.settle()
+        return self.n.getu(self.soc.ctrl._bus_errors.status)
+
+    def _tick(self):
+        self.n.tick()
+        self.cycle += 1
+
+    def idle(self, k=1):
+        for _ in range(k):
+            self.n.settle()
+            self._tick()
+
+    def access(self, addr, write=False, data=0, limit=None):
+        """Returns (latency in cycles from the first request cycle to the terminating handshake or None,
+        read data or None, error indication seen at the master: all-ones/SLVERR)."""
+        n, m, std = self.n, self.m, self.std
+        limit = limit or (self.t + 40)
+        ones = (1 << self.dw) - 1
+        if std == "wishbone":
+            n.set(m.adr, addr >> 2)
+            n.set(m.we, int(write))
+            n.set(m.dat_w, data)
+            n.set(m.sel, (1 << (self.dw // 8)) - 1)
+            n.set(m.cyc, 1)
+            n.set(m.stb, 1)
+            res = (None, None, None)
+            for c in range(limit):
+                n.settle()
+                if n.getu(m.ack):
+                    d = n.getu(m.dat_r)
+                    res = (c, d, d == ones and not n.getu(m.err))
+                    self._tick()
+                    break
+                self._tick()
+            n.set(m.cyc, 0)
+            n.set(m.stb, 0)
+            self.idle()
+            return res
+        full = std == "axi"
+        if write:
+            st = dict(aw=1, w=1)
+            n.set(m.aw.addr, addr)
+            n.set(m.w.data, data)
+            n.set(m.w.strb, (1 << (self.dw // 8)) - 1)
+            if full:
+                n.set(m.aw.len, 0)
+                n.set(m.aw.size, (self.dw // 8).bit_length() - 1)
+                n.set(m.aw.burst, 1)
+                n.set(m.w.last, 1)
+            res = (None, None, None)
+            for c in range(limit):
+                n.set(m.aw.valid, st["aw"])
+                n.set(m.w.valid, st["w"])
+                n.set(m.b.ready, int(not st["aw"] and not st["w"]))
+                n.settle()
+                if not st["aw"] and not st["w"] and n.getu(m.b.valid):
+                    res = (c, None, n.getu(m.b.resp) == 2)
+                    self._tick()
+                    break
+                if st["aw"] and n.getu(m.aw.ready):
+                    st["aw"] = 0
+                if st["w"] and n.getu(m.w.ready):
+                    st["w"] = 0
+                self._tick()
+            n.set(m.aw.valid, 0)
+            n.set(m.w.valid, 0)
+            n.set(m.b.ready, 0)
+            self.idle()
+            return res
+        st = dict(ar=1)
+        n.set(m.ar.addr, addr)
+        if full:
+            n.set(m.ar.len, 0)
+            n.set(m.ar.size, (self.dw // 8).bit_length() - 1)
+            n.set(m.ar.burst, 1)
+        res = (None, None, None)
+        for c in range(limit):
+            n.set(m.ar.valid, st["ar"])
+            n.set(m.r.ready, int(not st["ar"]))
+            n.settle()
+            if not st["ar"] and n.getu(m.r.valid):
+                d = n.getu(m.r.data)
+                ok_last = (not full) or n.getu(m.r.last)
+                res = (c, d, n.getu(m.r.resp) == 2 and d == ones and bool(ok_last))
+                self._tick()
+                break
+            if st["ar"] and n.getu(m.ar.ready):
+                st["ar"] = 0
+            self._tick()
+        n.set(m.ar.valid, 0)
+        n.set(m.r.ready, 0)
+        self.idle()
+        return res
+
+
+RAM0 = 0x10000000
+RAM_WORDS = [0x11223344, 0x55667788, 0x99aabbcc]
+UNMAPPED = (0x20000000, 0x40000010, 0x1fffff00)
+
+
+def soc_scenario(std, ic, t, rng, nops=14):
+    """Random interleaving of unmapped and RAM accesses.  Returns (list of problems, number of timed-out ops)."""
+    tb = SocTb(std, ic, t)
+    exact = t if std == "wishbone" else t + 2
+    problems = []
+    timeouts = 0
+    shadow = list(RAM_WORDS)
+    for k in range(nops):
+        r = rng.random()
+        if r < 0.45:
+            addr = rng.choice(UNMAPPED)
+            wr = rng.random() < 0.4
+            lat, d, err = tb.access(addr, write=wr, data=rng.getrandbits(32))
+            timeouts += 1
+            if lat is None:
+                problems.append("op %d: %s of unmapped %#x not terminated within %d cycles" % (k, "write" if wr else "read", addr, t + 40))
+                break
+            if lat != exact:
+                problems.append("op %d: unmapped access terminated after %d cycles, exact bound %d" % (k, lat, exact))
+            if not err:
+                problems.append("op %d: unmapped access terminated without error indication (data %r)" % (k, d))
+        else:
+            i = rng.randrange(len(shadow))
+            wr = rng.random() < 0.4
+            val = rng.getrandbits(32)
+            lat, d, err = tb.access(RAM0 + 4 * i, write=wr, data=val)
+            if lat is None:
+                problems.append("op %d: RAM access not completed (after %d timeouts)" % (k, timeouts))
+                break
+            if lat >= exact:
+                problems.append("op %d: RAM access took %d cycles" % (k, lat))
+            if wr:
+                shadow[i] = val
+                if err:
+                    problems.append("op %d: RAM write answered with an error" % k)
+            elif d != shadow[i]:
+                problems.append("op %d: RAM word %d reads %#x, expected %#x (after %d timeouts)" % (k, i, d, shadow[i], timeouts))
+        if rng.random() < 0.3:
+            tb.idle(rng.randint(1, 3))
+    be = tb.bus_errors()
+    if not problems and be != timeouts:
+        problems.append("bus_errors = %d after %d timed-out accesses" % (be, timeouts))
+    return problems, timeouts
+
+
+def measure_env(inst, rng, cycles):
+    """Run the real code under the instance's environment with the monitor armed and return the monitor's event
+    counters (what the random environment actually exercised) plus its verdict."""
+    n = inst.netlist
+    root = n.snapshot()
+    mon = inst.make_monitor()
+    inst.env = None
+    msg = None
+    for c in range(cycles):
+        letter = inst.gen(rng, c)
+        inst.apply(letter)
+        outs = inst.sample()
+        msg = msg or mon.observe(letter, outs)
+        n.tick()
+    n.restore(root)
+    if isinstance(mon, AxMonitor):
+        stats = {("write/" + k): v for k, v in mon.w.stats.items()}
+        stats.update({("read/" + k): v for k, v in mon.r.stats.items()})
+    else:
+        stats = dict(getattr(mon, "stats", {}))
+    return stats, msg
